@@ -617,7 +617,7 @@ PROPS["C10"] = {
 # engine R (real time): millisecond flags and the server's own dispatcher loops (harness/server/er_*.go, notes/ER.md)
 _R_RULE = ("engine R (real time): one fresh in-process leader per case with its own clock/time-out/expiry goroutines and millisecond "
            "wheels, 1..3 in-memory clients, rapid-drawn script of 3..14 LOCK/UNLOCK/sleep steps on 1..2 keys (Timeout 0 | 1..2500 ms "
-           "with the millisecond flag | 1..3 s; Expried 30..2500 ms with the flag | 1..3 s | unlimited; Count 0..2; re-entrant re-locks "
+           "with the millisecond flag | 1..3 s | boundary classes 2999, 3000, 3001, 5999, 6000, 30000, 64535..65535 ms, 65535 s, minute flag 1, 2, 1092, 1093, 65535; Expried 30..2500 ms with the flag | 1..3 s | unlimited | the same boundary classes; Count 0..2; re-entrant re-locks "
            "and updates; sleeps 0..1500 ms; optional alignment of the start to an offset inside the wall-clock second). Every request "
            "is stamped before/after the call, every reply in the callback (monotonic clock, wall second, server's sampled clock, "
            "goroutine). Oracle: early = violation (ms: T-2 ms; s: T minus the measured staleness of the sampled clock; expiry from the "
@@ -632,6 +632,7 @@ _R_ASSUME = [
     "engine R: an update that shortens the deadline, or moves it by <= 1 unit, is not judged for lateness",
     "engine R: lateness is judged only when the measured scheduling delay of the process stayed below 200 ms; cases that could not be kept on schedule are discarded (counted)",
     "engine R: cases run 4 at a time per process on separate instances; a failure is reported only if it recurs when the case is executed again",
+    "engine R: periods longer than 4 s are only checked for not ending early inside their watch window (3000 + 1100 ms for the millisecond flag, 2.2 s for second / minute granularity); they are abandoned with the instance",
 ]
 for _p in ("C05", "C06"):
     PROPS[_p]["units"] += [
